@@ -196,31 +196,6 @@ func typeSwitch(info *types.Info, sw *ast.TypeSwitchStmt) (operand ast.Expr, cla
 	return
 }
 
-// funcLits returns the function literals directly or indirectly inside n.
-func funcLits(n ast.Node) []*ast.FuncLit {
-	var out []*ast.FuncLit
-	ast.Inspect(n, func(m ast.Node) bool {
-		if fl, ok := m.(*ast.FuncLit); ok {
-			out = append(out, fl)
-		}
-		return true
-	})
-	return out
-}
-
-// inspectNoLits walks n without descending into function literals.
-func inspectNoLits(n ast.Node, f func(ast.Node) bool) {
-	ast.Inspect(n, func(m ast.Node) bool {
-		if m == nil {
-			return false
-		}
-		if _, ok := m.(*ast.FuncLit); ok && m != n {
-			return false
-		}
-		return f(m)
-	})
-}
-
 // lenArg: if e is len(x) returns x.
 func lenArg(info *types.Info, e ast.Expr) ast.Expr {
 	call, ok := unparen(e).(*ast.CallExpr)
